@@ -232,6 +232,36 @@ fn fixed<'gc>(f: &mut Vec<String>, s: &[S<'gc>], w: &[W<'gc>]) {
     check(f, "Two<u8,Gc>", &Two(1u8, s[5]), &[sa(s[5])], &[], true);
     check(f, "Two<u8,u8>", &Two(1u8, 2u8), &[], &[], false);
     check(f, "Two<GcWeak,Gc>", &Two(w[1], s[6]), &[sa(s[6])], &[wa(w[1])], true);
+    // a field whose type has the SAME NAME as the deriving type (another module's type), by value and nested
+    mod ast {
+        use gc_arena::{Collect, Gc, GcWeak};
+        #[derive(Collect)]
+        #[collect(no_drop)]
+        pub struct Expr<'gc> { pub g: Gc<'gc, u32>, pub w: GcWeak<'gc, u32> }
+        #[derive(Collect)]
+        #[collect(no_drop)]
+        pub enum Kind<'gc> { Leaf(u8), Node(Gc<'gc, u32>) }
+    }
+    #[derive(Collect)]
+    #[collect(no_drop)]
+    struct Expr<'gc> { source: ast::Expr<'gc>, n: u32 }
+    check(f, "same name, other module, by value", &Expr { source: ast::Expr { g: s[7], w: w[2] }, n: 1 }, &[sa(s[7])], &[wa(w[2])], true);
+    #[derive(Collect)]
+    #[collect(no_drop)]
+    enum Kind<'gc> { A(Vec<ast::Kind<'gc>>), B(Option<ast::Kind<'gc>>, u8) }
+    check(f, "same name, other module, in Vec", &Kind::A(vec![ast::Kind::Leaf(1), ast::Kind::Node(s[8])]), &[sa(s[8])], &[], true);
+    check(f, "same name, other module, in Option", &Kind::B(Some(ast::Kind::Node(s[9])), 0), &[sa(s[9])], &[], true);
+    // legitimately recursive types (the type mentions itself behind a pointer)
+    #[derive(Collect)]
+    #[collect(no_drop)]
+    struct List<'gc> { next: Option<Gc<'gc, List<'gc>>>, kids: Vec<Gc<'gc, List<'gc>>>, up: Option<GcWeak<'gc, List<'gc>>> }
+    {
+        // (the recorder only needs addresses; build the nodes through the collector-free constructor of the caller's arena)
+        let _ = std::mem::size_of::<List<'gc>>();
+        if !<List<'gc> as Collect<'gc>>::NEEDS_TRACE { f.push("recursive List: NEEDS_TRACE is false".into()); }
+    }
+    // (a type that contains itself by value behind Box / Vec cannot derive Collect at all on the reference tree:
+    //  its NEEDS_TRACE constant is cyclic, E0391 - not a valid shape)
 }
 '''
 
@@ -262,6 +292,9 @@ def neg_probes():
     N["no_drop_and_drop/enum"] = "#[derive(Collect)]\n#[collect(no_drop)]\nenum X { A, B(u32) }\nimpl Drop for X { fn drop(&mut self) {} }"
     N["no_drop_and_drop/generic"] = "#[derive(Collect)]\n#[collect(no_drop)]\nstruct X<T>(T);\nimpl<T> Drop for X<T> { fn drop(&mut self) {} }"
     N["no_drop_and_drop/unit"] = "#[derive(Collect)]\n#[collect(no_drop)]\nstruct X;\nimpl Drop for X { fn drop(&mut self) {} }"
+    N["no_drop_and_drop/with_bound_generic"] = "#[derive(Collect)]\n#[collect(no_drop, bound = \"where T: Collect<'gc>\")]\nstruct X<'gc, T>(Gc<'gc, u32>, T);\nimpl<'gc, T> Drop for X<'gc, T> { fn drop(&mut self) {} }"
+    N["no_drop_and_drop/with_bound_enum"] = "#[derive(Collect)]\n#[collect(no_drop, bound = \"\")]\nenum X<'gc> { A(Gc<'gc, u32>), B }\nimpl<'gc> Drop for X<'gc> { fn drop(&mut self) {} }"
+    N["no_drop_and_drop/with_gc_lifetime"] = "#[derive(Collect)]\n#[collect(no_drop, gc_lifetime = 'gc)]\nstruct X<'gc, 'a>(Gc<'gc, u32>, std::marker::PhantomData<&'a ()>);\nimpl<'gc, 'a> Drop for X<'gc, 'a> { fn drop(&mut self) {} }"
     N["no_drop_and_drop/with_bound"] = "#[derive(Collect)]\n#[collect(no_drop, bound = \"\")]\nstruct X(u32);\nimpl Drop for X { fn drop(&mut self) {} }"
     # require_static on something not 'static (checked at the use site)
     N["require_static_not_static/type_gc"] = "#[derive(Collect)]\n#[collect(require_static)]\nstruct X<'gc>(Gc<'gc, u32>);\nfn f<'gc>() { use_it::<'gc, X<'gc>>(); }"
@@ -297,6 +330,12 @@ def neg_probes():
     N["field_not_collect/with_gc"] = "#[derive(Collect)]\n#[collect(no_drop)]\nstruct X<'gc> { g: Gc<'gc, u32>, a: NotCollect }"
     N["field_not_collect/generic_inst"] = "#[derive(Collect)]\n#[collect(no_drop)]\nstruct X<T>(T);\nfn f<'gc>() { use_it::<'gc, X<NotCollect>>(); }"
     N["field_not_collect/cell_gc"] = "#[derive(Collect)]\n#[collect(no_drop)]\nstruct X<'gc> { c: std::cell::Cell<Option<Gc<'gc, u32>>> }\nfn f<'gc>() { use_it::<'gc, X<'gc>>(); }"
+    N["field_not_collect/ref_gc_lifetime"] = "#[derive(Collect)]\n#[collect(no_drop)]\nstruct X<'gc> { g: Gc<'gc, u32>, r: &'gc u32 }\nfn f<'gc>() { use_it::<'gc, X<'gc>>(); }"
+    N["field_not_collect/ref_gc_lifetime_only_field"] = "#[derive(Collect)]\n#[collect(no_drop)]\nstruct X<'gc>(&'gc String);\nfn f<'gc>() { use_it::<'gc, X<'gc>>(); }"
+    N["field_not_collect/ref_to_gc"] = "#[derive(Collect)]\n#[collect(no_drop)]\nstruct X<'gc> { r: &'gc Gc<'gc, u32> }\nfn f<'gc>() { use_it::<'gc, X<'gc>>(); }"
+    N["field_not_collect/ref_in_enum"] = "#[derive(Collect)]\n#[collect(no_drop)]\nenum X<'gc> { A(Gc<'gc, u32>), B { r: &'gc u8 } }\nfn f<'gc>() { use_it::<'gc, X<'gc>>(); }"
+    N["field_not_collect/mut_ref"] = "#[derive(Collect)]\n#[collect(no_drop)]\nstruct X<'gc>(Gc<'gc, u32>, &'gc mut u8);\nfn f<'gc>() { use_it::<'gc, X<'gc>>(); }"
+    N["field_not_collect/raw_pointer"] = "#[derive(Collect)]\n#[collect(no_drop)]\nstruct X<'gc>(Gc<'gc, u32>, *const Gc<'gc, u32>);\nfn f<'gc>() { use_it::<'gc, X<'gc>>(); }"
     N["field_not_collect/bound_empty_still_checked"] = "#[derive(Collect)]\n#[collect(no_drop, bound = \"\")]\nstruct X { a: NotCollect }"
     # several lifetimes without gc_lifetime
     N["several_lifetimes/two"] = "#[derive(Collect)]\n#[collect(no_drop)]\nstruct X<'gc, 'a>(Gc<'gc, &'a u8>);"
